@@ -14,7 +14,7 @@ from dxv import spec
 POOL = list(spec.POOL)
 MULTIBYTE = ('utf-16', 'utf-16-le', 'utf-16-be', 'utf-32', 'utf-32-le',
              'utf-32-be')
-INDENTS = (0, 1, 2, 4, 4, 7, 13, 64, 200)
+INDENTS = (0, 1, 2, 4, 4, 7, 13, 64, 200, 257, 1000)
 
 HEADERISH = [
     '#diffx: version=1.0', '#diffx: encoding=utf-8, version=1.0',
@@ -225,9 +225,18 @@ def json_values(max_leaves=8, nonfinite=False):
         max_leaves=max_leaves)
 
 
+WIDE_JSON = {
+    # flat, but with more than a thousand containers / members
+    'rows': [[i, {'n': i}] for i in range(360)],
+    'index': {'k%d' % i: [] for i in range(300)},
+}
+
+
 def json_objects(max_leaves=8, min_size=1, nonfinite=False):
-    return st.dictionaries(_json_key, json_values(max_leaves, nonfinite),
-                           min_size=min_size, max_size=4)
+    small = st.dictionaries(_json_key, json_values(max_leaves, nonfinite),
+                            min_size=min_size, max_size=4)
+    return st.builds(lambda v, k: WIDE_JSON if k == 0 else v, small,
+                     st.sampled_from(range(150)))
 
 
 # -- writer call arguments ------------------------------------------------
@@ -372,6 +381,10 @@ def programs(draw, max_changes=3, max_files=3, pool=None):
 
             if draw(st.booleans()):
                 add('diff', draw(diff_kwargs()))
+
+    if draw(st.sampled_from(range(24))) == 0:
+        # the program stops right after opening a container
+        add('change', container_kw())
 
     return {'encoding': main, 'calls': calls}
 
